@@ -88,7 +88,7 @@ def v1(ctx, rep, T):
     else:
         rep.fail('V1', 'variant-id', f'variant id is not get_ident(..): {vt.show(idv)[:100]}', site)
     # tag / content
-    pe = ctx.fn('parse_enum', file='parser.rs')
+    pe = ctx.fnx('parse_enum', file='parser.rs')     # inlined view: the keys may travel through a private helper type
     alg = [c for c in pe['structs'] if c['path'] == 'RustEnum::Algebraic']
     rep.floor('V1', 'RustEnum::Algebraic construction', len(alg), 1)
     eparam = pe['params'][0]['name']
